@@ -20,6 +20,7 @@ HOSTILE = [
     "(define-syntax case (syntax-rules () ((case k c ...) 'hijacked-case)))",
     "(define-syntax my-mac (syntax-rules () ((my-mac a b) (list 'A a b))))",
     "(define-syntax swap! (syntax-rules () ((swap! a b) ((lambda (tmp) (set! a b) (set! b tmp)) a))))",
+    "(define (when x) 'a-when)", "(define and 5)", "(define let 1)", "(define (cond . x) x)", "(define or list)", "(define (unless . x) 'a-unless)", "(define begin 0)", "(define case 'c)",
     "(define + -)", "(define (car x) 'a-car)", "(set! cons list)", "(define list vector)", "(define tick-free 1)",
     "(import (no such library))", "(import (only (scheme base) car))", "(car '())", "(undefined-procedure 1)", "(vector-ref (vector) 0)", "(/ 1 0)",
     "(define (map f l) 'a-map)", "(define apply 5)", "(my-mac 1 2)", "(cond (#t 1))", "(let ((q 1)) q)",
@@ -33,6 +34,11 @@ A_LIBS = [
 ]
 B_PROCS = ["(define (twice f) (lambda (x) (f (f x))))", "((twice (lambda (x) (+ x 1))) 5)", "(define (local-mac x) (list 'b-local x))", "(local-mac 3)",
            "(define (wrap x) (list 'b-wrap x))", "(wrap 4)", "(define (id x) x)", "(id 9)"]
+# B registers its own, different sources under the library names that A uses
+B_LIBS = [
+    {"name": ["util", "counter"], "src": "(define-library (util counter) (import (scheme base)) (export inc limit) (begin (define limit 99) (define (inc x) (+ x 100))))"},
+    {"name": ["util", "wrap"], "src": "(define-library (util wrap) (import (scheme base)) (export w) (begin (define (w x) (list 'wrapped-by-b x))))"},
+]
 B_MACROS = ["(define-syntax my-mac (syntax-rules () ((my-mac a b) (list 'B b a))))", "(my-mac 1 2)",
             "(define-syntax twice! (syntax-rules () ((twice! e) ((lambda () e e)))))", "(twice! (tick 500 7))"]
 
@@ -97,10 +103,14 @@ def run(tier, seed):
     for pi, (A, B) in enumerate(pairs):
         # instance A (and the instances created later) sometimes carry registered library sources with macros in them
         aspec = dict(spec, libs=A_LIBS) if pi % 2 else spec
-        jobs.append({"id": "alone-%d" % pi, "interps": [spec], "steps": [{"it": 0, "src": t} for t in B], "fuel": 100000}); meta.append(("alone", pi, None))
+        bspec = dict(spec, libs=B_LIBS) if pi % 4 in (1, 2) else spec
+        bsteps = lambda it: ([{"it": it, "import": [{"lib": ["util", "counter"]}, {"lib": ["util", "wrap"]}], "fresh_env": False}, {"it": it, "src": "(list (inc 5) limit (w 1))"}] if "libs" in bspec else []) \
+            + [{"it": it, "src": t} for t in B]
+        jobs.append({"id": "alone-%d" % pi, "interps": [bspec], "steps": bsteps(0), "fuel": 100000}); meta.append(("alone", pi, None))
         for k in range(nint):
             # random merge of A and B
-            order = [0] * len(A) + [1] * len(B)
+            bs = bsteps(1)
+            order = [0] * len(A) + [1] * len(bs)
             rng.shuffle(order)
             ia = ib = 0
             steps, bpos = [], []
@@ -113,8 +123,8 @@ def run(tier, seed):
                     steps.append({"new": aspec}); extra += 1
                 else:
                     bpos.append(len(steps))
-                    steps.append({"it": 1, "src": B[ib]}); ib += 1
-            jobs.append({"id": "mix-%d-%d" % (pi, k), "interps": [aspec, spec], "steps": steps, "fuel": 100000}); meta.append(("mix", pi, bpos))
+                    steps.append(bs[ib]); ib += 1
+            jobs.append({"id": "mix-%d-%d" % (pi, k), "interps": [aspec, bspec], "steps": steps, "fuel": 100000}); meta.append(("mix", pi, bpos))
     recs = core.run_jobs(jobs, "dev", timeout=900 if tier == "quick" else 3000, tag="c19")
     alone = {}
     for (kind, pi, bpos), rec in zip(meta, recs):
@@ -154,7 +164,8 @@ def run(tier, seed):
             if got != want:
                 ok = False
                 a_before = [s["src"] for s in job["steps"][:p] if s.get("it") == 0 and "src" in s]
-                ctx.violation({"what": "a form of B evaluated differently when A ran on another instance", "kind": "interference", "b_form": B[k][:300], "alone": want, "interleaved": got,
+                b_all = [job["steps"][q].get("src", json.dumps(job["steps"][q].get("import"))) for q in bpos]
+                ctx.violation({"what": "a form of B evaluated differently when A ran on another instance", "kind": "interference", "b_form": b_all[k][:300], "alone": want, "interleaved": got,
                                "macro_table_changed_by": changed_at, "a_forms_before": a_before[-4:], "dedupe": "b|%s|%s" % (changed_at is not None, json.dumps(want)[:30] == json.dumps(got)[:30])},
                               {"A": A, "B": B, "order": [s.get("it", "new") for s in job["steps"] if "src" in s], "b_index": k})
                 break
